@@ -286,6 +286,9 @@ func (fr *frame) visit(instr ssa.Instruction) bool {
 			in.goPanic("nil-deref", "store through nil pointer")
 		}
 		in.checkStore(p)
+		if in.curJob != nil {
+			in.curJob.writes[p] = true
+		}
 		*p = copyVal(fr.get(instr.Val))
 	case *ssa.If:
 		c := fr.get(instr.Cond).(*term.Term)
@@ -799,6 +802,9 @@ func (in *Interp) unop(instr *ssa.UnOp, x Value) Value {
 		p := x.(*Value)
 		if p == nil {
 			in.goPanic("nil-deref", "nil pointer dereference")
+		}
+		if in.curJob != nil {
+			in.curJob.reads[p] = true
 		}
 		return copyVal(*p)
 	case token.SUB:
